@@ -6,7 +6,7 @@ from . import common
 
 LEVEL = "other"
 KINDS = {"approx-ratio", "approx-k1-not-exact", "approx-k0-accepted", "approx-k0-emitted", "approx-below-optimum",
-         "approx-exception-type", "crash"}
+         "approx-exception-type", "crash", "nonspanner-cycle-stretch"}
 EXPLANATION = (
     "PROVED by CBMC (loop-free, every k): BaseApproxSpannerAlgorithm::run throws for k=0 before the exact phase or any "
     "write to the output iterator, and accepts every k>=1 (K18c); the spanner loop hands is_bfs_reachable the hop bound 2k-1 "
@@ -14,7 +14,9 @@ EXPLANATION = (
     "expresses and is BOUNDED: Contract K18 continued: ret <= (2k-1)*OPT with OPT from the brute-force oracle (cross-checked against an "
     "independent Horton oracle), k=1 => ret = OPT, k=0 => std::runtime_error and no cycle emitted.  BOUNDED "
     "stand-in on the real sequential approximate entry points over the exact-domain set x k in {0,1,2,3,5,n}; "
-    "the carrier contract K17 (spanner stretch and girth) is C15.  No deductive content (templates outside "
+    "the carrier contracts are K17 (spanner stretch and girth, C15) and K18b (the cycle emitted for a dropped edge e closes it "
+    "with a path of retained edges weighing at most (2k-1)*w(e) - the per-edge fact the published bound is summed from; a "
+    "change that breaks it is reported although the global ratio may still hold on the small graphs explored).  No deductive content (templates outside "
     "CBMC's reach).")
 
 
